@@ -747,9 +747,15 @@ func compactToSliceOfSlice(compact [][2]int) [][]int {
 //	process(buf)
 func (r *Regex) AppendAllIndex(dst [][2]int, b []byte, n int) [][2]int {
 	if n == 0 {
-		return nil
+		return dst
 	}
-	return r.engine.FindAllIndicesStreaming(b, n, dst)
+	if len(dst) == 0 {
+		return r.engine.FindAllIndicesStreaming(b, n, dst)
+	}
+	// The engine reuses (truncates) the slice it is given, so search into the
+	// spare capacity behind dst and keep the existing elements in front.
+	tail := r.engine.FindAllIndicesStreaming(b, n, dst[len(dst):len(dst):cap(dst)])
+	return append(dst, tail...)
 }
 
 // AppendAllStringIndex appends all successive match index pairs for the string
